@@ -23,6 +23,8 @@ def run(ctx, out):
     ops2, want2 = S.apdu_switch(layout, ctx.rng)
     ops += ops2; want += want2; meta += [("apdu-switch", 0)] * len(ops2)
     impl, model = ctx.pair(ops)
+    from ..flow import history_check
+    history_check(ctx, out, ops, impl, "packet decoder")
     out.compare("dec", ops, impl, model)
     out.evaluations = len(ops)
     for o, r, w, m in zip(ops, impl, want, meta):
